@@ -31,11 +31,8 @@ ASSUMPTIONS = [
     "pipelines return a fresh list per call (list_combiner appends in place)",
     "probe values are dyadic rationals with small numerators: replace / list / union arithmetic is exact in binary64; "
     "rescaled rates are compared within 4 ulp of the returned float (two correctly rounded operations)",
-    "source callables are truthy (functions, bound methods, ordinary callable objects): the code tests "
-    "`if pipeline.source`, so a callable whose truth value is False counts as 'no source' - theorems carry the guard "
-    "[forall s, truthy s = true]; the excluded class is exhibited by C14_second_source_inert_refuted / "
-    "C14_sourced_call_refuted and replayable from corpus/C14/pending/FS_falsy_source.json",
-    "keyword arguments of Pipeline.__call__ and union over a bare Series are outside the model",
+    "post-processor callables are truthy (the code still tests `if self.post_processor`); source callables may have "
+    "any truth value (finding F-Y, fixed in e7ddbc13: falsy callable sources are generated and in the corpus)",
 ]
 TRUSTED = [
     "C14: probe components/callables and their logs; logging wrappers installed over "
@@ -55,13 +52,14 @@ CLAIM = {
             "1 - prod(1 - p) (in [0,1], order-independent, >= every input). Tied to /repo/src by vm_compute-decided "
             "agreement of registry snapshots, call logs and values on generated real-context cases, plus an "
             "independent oracle (counters, order, recomputed value).",
-    "note": "callables are universally quantified pure functions (Section variables); guard 'source callables are "
-            "truthy' (candidate finding F-S: a falsy callable source is treated as no source; refuted-lemmas exhibit "
-            "it); exact rational arithmetic in the model, float rounding of rescaled rates bounded by 4 ulp in the "
-            "correspondence only; keyword arguments and union over a bare Series not modelled; correspondence sampled",
+    "note": "callables are universally quantified pure functions (Section variables); no guard on sources since fix "
+            "e7ddbc13 (F-Y; the old truthiness behaviour is kept as an explicitly named old model); post-processor "
+            "callables assumed truthy; exact rational arithmetic in the model, float rounding of rescaled rates "
+            "bounded by 4 ulp in the correspondence only; correspondence sampled",
 }
 
 NAMES = {1: "c14_pipe_a", 2: "c14_pipe_b", 3: "c14_pipe_c", 4: "c14_pipe_d"}
+KWIDS = {"kw_a": 1, "kw_b": 2}
 YEAR_S = 365 * 86400
 MAXDEV = [0.0]      # largest observed |float - exact| / ulp over rescaled values of this run
 
@@ -99,15 +97,17 @@ def canon_value(v):
     return ["other", repr(v)[:80]]
 
 
-def canon_args(args):
-    """positional arguments -> [index labels | None, extras]"""
+def canon_args(args, kwargs=None):
+    """arguments -> [index labels | None, extras, [[keyword id, value]...] sorted]"""
     import pandas as pd
     args = list(args)
     idx = None
     if args and isinstance(args[0], pd.Index):
         idx = [int(i) for i in args[0].tolist()]
         args = args[1:]
-    return [idx, [int(a) if isinstance(a, int) and not isinstance(a, bool) else repr(a)[:30] for a in args]]
+    kw = sorted([KWIDS.get(k, repr(k)), v if isinstance(v, int) and not isinstance(v, bool) else repr(v)[:30]]
+                for k, v in (kwargs or {}).items())
+    return [idx, [int(a) if isinstance(a, int) and not isinstance(a, bool) else repr(a)[:30] for a in args], kw]
 
 
 # ----------------------------------------------------------------------------------------------------------------
@@ -133,13 +133,13 @@ def affine(a, b, v):
 
 
 def make_source(rec, sid, spec):
-    def source(*args):
+    def source(*args, **kwargs):
         if spec["list"]:
             out = [eval_entry(e, args) for e in spec["entries"]]
         else:
             out = eval_entry(spec["entries"][0], args)
         if rec.cur is not None:
-            rec.cur.append({"k": "src", "id": sid, "args": canon_args(args), "ret": canon_value(out)})
+            rec.cur.append({"k": "src", "id": sid, "args": canon_args(args, kwargs), "ret": canon_value(out)})
         return out
     source.__name__ = f"c14_source_{sid}"
     source.vid = sid
@@ -149,7 +149,7 @@ def make_source(rec, sid, spec):
 def make_modifier(rec, mid, spec):
     a, b = float(fr(spec["a"])), float(fr(spec["b"]))
 
-    def modifier(*args):
+    def modifier(*args, **kwargs):
         if spec["conv"] == "replace":
             value, rest = args[-1], args[:-1]
             out = affine(a, b, value)
@@ -158,7 +158,7 @@ def make_modifier(rec, mid, spec):
             rest, last = args, None
             out = eval_entry(spec["entry"], args)
         if rec.cur is not None:
-            rec.cur.append({"k": "mod", "id": mid, "args": canon_args(rest), "last": last, "ret": canon_value(out)})
+            rec.cur.append({"k": "mod", "id": mid, "args": canon_args(rest, kwargs), "last": last, "ret": canon_value(out)})
         return out
     modifier.__name__ = f"c14_modifier_{mid}"
     modifier.vid = mid
@@ -183,19 +183,32 @@ class CallableObject:
     def __init__(self, fn, truthy=True):
         self._fn, self.vid, self.name, self._truthy = fn, fn.vid, fn.__name__, truthy
 
-    def __call__(self, *args):
-        return self._fn(*args)
+    def __call__(self, *args, **kwargs):
+        return self._fn(*args, **kwargs)
 
-    def __len__(self):          # consulted by bool(); a falsy callable is the excluded class (see ASSUMPTIONS)
+    def __len__(self):          # consulted by bool(): an "empty" callable container is falsy (finding F-Y)
         return 1 if self._truthy else 0
+
+
+class FalsyCallable:
+    """A callable whose __bool__ says False."""
+
+    def __init__(self, fn):
+        self._fn, self.vid, self.name = fn, fn.vid, fn.__name__
+
+    def __call__(self, *args, **kwargs):
+        return self._fn(*args, **kwargs)
+
+    def __bool__(self):
+        return False
 
 
 def flavoured(fn, flavour, owner, truthy=True):
     if not truthy:
-        return CallableObject(fn, truthy=False)
+        return FalsyCallable(fn) if flavour == "method" else CallableObject(fn, truthy=False)
     if flavour == "method":
-        def method(self_, *args):
-            return fn(*args)
+        def method(self_, *args, **kwargs):
+            return fn(*args, **kwargs)
         method.__name__ = fn.__name__
         method.vid = fn.vid
         return types.MethodType(method, owner)
@@ -369,7 +382,8 @@ def run_context(case):
                 rec.cur = []
                 err = out = None
                 try:
-                    out = pipe(*args, skip_post_processor=True) if c["skip"] else pipe(*args)
+                    kw = dict(c.get("kwargs") or {})
+                    out = pipe(*args, skip_post_processor=True, **kw) if c["skip"] else pipe(*args, **kw)
                 except Exception as e:
                     err = e
                 trace, rec.cur = rec.cur, None
@@ -447,6 +461,13 @@ def expected_value(case, state, c):
         f = lambda x: cc * x + d
         return ("exact", ("many", [amap(f, t) for t in v[1]]) if v[0] == "many" else amap(f, v))
     if post[0] == "union":
+        if v[0] == "vec":           # a bare Series is taken as the list of its elements
+            if len(v[1]) == 1:
+                return ("exact", ("sc", v[1][0])) if idx == [0] else None
+            prod = Fraction(1)
+            for x in v[1]:
+                prod *= 1 - x
+            return ("exact", ("sc", 1 - prod))
         if v[0] != "many":
             return None
         atoms = v[1]
@@ -512,7 +533,6 @@ def oracle(case, reg_log, calls):
         n = act[1]
         st = state.setdefault(n, {"src": None, "mods": []})
         if act[0] == "prod":
-            falsy_first = st["src"] is not None and not case["sources"][str(st["src"])].get("truthy", True)
             if st["src"] is None:
                 if e["code"] != 0:
                     return False, f"first source {act[2]} of pipeline {n} was refused ({e['err']})"
@@ -520,7 +540,7 @@ def oracle(case, reg_log, calls):
             else:
                 if e["code"] == 0:
                     return False, f"second source {act[2]} for pipeline {n} was accepted"
-                if e["code"] != 1 and not falsy_first:
+                if e["code"] != 1:
                     return False, f"second source {act[2]} for pipeline {n}: {e['err']} instead of DynamicValueError"
         elif act[0] == "mod":
             if e["code"] != 0:
@@ -536,9 +556,8 @@ def oracle(case, reg_log, calls):
         if not snap_matches(c["snap"]):
             return False, f"call {c['ci']} changed the registry: {c['snap']}"
         tr = c["trace"]
-        want_args = [spec["idx"], list(spec["extras"])]
-        sourced = st["src"] is not None and case["sources"][str(st["src"])].get("truthy", True)
-        if not sourced:
+        want_args = [spec["idx"], list(spec["extras"]), sorted([KWIDS[k], v] for k, v in (spec.get("kwargs") or {}).items())]
+        if st["src"] is None:
             if c["code"] != 1 or tr:
                 return False, (f"call {c['ci']} of pipeline {n} without a source: outcome {c['err'] or 'returned'}, "
                                f"{len(tr)} callables evaluated (expected DynamicValueError, none)")
@@ -643,7 +662,7 @@ def ccomb(c):
 
 
 def carg(a):
-    return cpair(copt(a[0], czlist), czlist(a[1]))
+    return cpair(copt(a[0], czlist), czlist(a[1]), clist(cpair(cz(k), cz(v)) for k, v in a[2]))
 
 
 def coq_ok(v):
@@ -690,9 +709,12 @@ def render(case, reg_log, calls):
         items.append(cpair(f"XOp ({op})", f"BReg {cz(e['code'])} {csnap(snap)}"))
     for c, spec in zip(calls, case["calls"]):
         for t in c["trace"]:
-            if not coq_ok(t.get("last")) or not coq_ok(t.get("val")) or any(isinstance(x, str) for x in t.get("args", [None, []])[1]):
+            targs = t.get("args", [None, [], []])
+            if (not coq_ok(t.get("last")) or not coq_ok(t.get("val")) or any(isinstance(x, str) for x in targs[1])
+                    or any(isinstance(k, str) or isinstance(v, str) for k, v in targs[2])):
                 return None
-        xcall = (f"XCall {cz(spec['pipe'])} {carg([spec['idx'], spec['extras']])} {cbool(spec['skip'])} "
+        kws = sorted([KWIDS[k], v] for k, v in (spec.get("kwargs") or {}).items())
+        xcall = (f"XCall {cz(spec['pipe'])} {carg([spec['idx'], spec['extras'], kws])} {cbool(spec['skip'])} "
                  f"{czlist(c['steps'])} {cz(c['gstep'])}")
         if c["code"] != 0:
             val = "None"
@@ -726,11 +748,21 @@ def run_case(case):
     tags = set()
     for e in reg_log:
         tags.add(f"reg_{e['act'][0]}_code{e['code']}")
+        if e["act"][0] == "prod" and e["code"] == 1 and any(
+                not case["sources"][str(x["act"][2])].get("truthy", True) for x in reg_log
+                if x["act"][0] == "prod" and x["act"][1] == e["act"][1] and x["code"] == 0):
+            tags.add("reg_second_source_after_falsy_rejected")
     for c, spec in zip(calls, case["calls"]):
         tags.add(f"call_code{c['code']}")
         tags.add(f"call_mods{min(sum(1 for t in c['trace'] if t['k'] == 'mod'), 5)}")
         if spec["skip"]:
             tags.add("call_skip")
+        if spec.get("kwargs"):
+            tags.add("call_kwargs")
+        if any(t["k"] == "post" and t["kind"] == ["union"] and t["val"][0] == "vec" for t in c["trace"]):
+            tags.add("call_union_over_series")
+        if any(t["k"] == "src" and not case["sources"][str(t["id"])].get("truthy", True) for t in c["trace"]):
+            tags.add("call_falsy_source")
         if c["steps"] and len(set(c["steps"])) > 1:
             tags.add("call_distinct_steps")
         if any(s % 86400000000000 for s in c["steps"]):
@@ -783,7 +815,7 @@ def gen_case(rng: random.Random):
             is_list = (comb == 1) if rng.random() < 0.93 else (comb == 0)
             r = rng.random()
             if comb == 0:
-                post = None if r < 0.3 else ["rescale"] if r < 0.7 else ["custom"] if r < 0.95 else ["union"]
+                post = None if r < 0.3 else ["rescale"] if r < 0.65 else ["custom"] if r < 0.85 else ["union"]
             else:
                 post = None if r < 0.25 else ["union"] if r < 0.8 else ["custom"] if r < 0.95 else ["rescale"]
             pool = PROBS if post == ["union"] else RATES if post == ["rescale"] else RATES + B_CHOICES
@@ -791,15 +823,13 @@ def gen_case(rng: random.Random):
                 entries = [gen_entry(rng, n, pool, scalar_only) for _ in range(rng.choice([0, 1, 1, 2, 3]))]
             else:
                 entries = [gen_entry(rng, n, pool, scalar_only)]
-            if post == ["union"] and not is_list and entries[0][0] == "tbl":
-                post = None               # union over a bare Series iterates its elements: outside the model
             if post == ["custom"]:
                 cid = next_cid[0]
                 next_cid[0] += 1
                 posts[str(cid)] = {"c": rng.choice(A_CHOICES), "d": rng.choice(B_CHOICES)}
                 post = ["custom", cid]
             sources[str(sid)] = {"list": is_list, "entries": entries, "comb": comb, "post": post,
-                                 "flavour": rng.choice(["func", "func", "method", "obj"]), "truthy": True,
+                                 "flavour": rng.choice(["func", "func", "method", "obj"]), "truthy": rng.random() < 0.8,
                                  "via_rate": rng.random() < 0.5}
             actions.append((p, ["prod", p, sid]))
         nm = rng.choice([0, 1, 2, 3, 3, 4, 5])
@@ -833,6 +863,11 @@ def gen_case(rng: random.Random):
             pool = PROBS if post == ["union"] else RATES
             mods[str(act[2])]["conv"] = conv
             mods[str(act[2])]["entry"] = gen_entry(rng, n, pool, plans[p]["scalar_only"])
+            if post == ["union"] and conv == "replace":
+                # union over a bare Series multiplies the complements of ALL requested simulants: keep the modifiers'
+                # contribution to the bit length small so that the product stays exact in binary64
+                mods[str(act[2])]["a"] = rng.choice([[1, 1], [1, 2]])
+                mods[str(act[2])]["b"] = rng.choice([[0, 1], [1, 4]])
     comps.append({"name": "c14_caller", "actions": [["get", p] for p in range(1, npipes + 1)]})
     calls = []
     for _ in range(rng.randint(3, 9)):
@@ -849,7 +884,8 @@ def gen_case(rng: random.Random):
         else:
             idx = []
         extras = [] if rng.random() < 0.75 else rng.choice([[7], [1, 2], [0]])
-        calls.append({"pipe": p, "idx": idx, "extras": extras, "skip": rng.random() < 0.3,
+        kwargs = {} if rng.random() < 0.75 else rng.choice([{"kw_a": 5}, {"kw_b": 0, "kw_a": 3}, {"kw_b": -2}])
+        calls.append({"pipe": p, "idx": idx, "extras": extras, "kwargs": kwargs, "skip": rng.random() < 0.3,
                       "when": rng.choice([0] + ([1] if nsteps else []) + [2 + k for k in range(nsteps)] * 2)})
     return {"npop": n, "step": step, "stepmod": stepmod, "nsteps": nsteps, "components": comps, "sources": sources,
             "mods": mods, "posts": posts, "calls": calls}
@@ -860,20 +896,16 @@ def _load_corpus():
     import json
     import os
     here = os.path.dirname(os.path.dirname(os.path.dirname(os.path.abspath(__file__))))
-    return [json.load(open(f)) for f in sorted(glob.glob(os.path.join(here, "corpus", "C14", "*.json")))]
-
-
-def finding_of(case, res):
-    # candidate finding F-S (not in known_findings.json, hence reported as a VIOLATION if such a case is ever run):
-    # a source callable whose truth value is False
-    if any(not sp.get("truthy", True) for sp in case["sources"].values()):
-        return "F-S"
-    return None
+    out = []
+    for f in sorted(glob.glob(os.path.join(here, "corpus", "C14", "*.json"))):
+        d = json.load(open(f))
+        out.append(d["case"] if "case" in d and "components" not in d else d)
+    return out
 
 
 def streams(tier):
     return [Stream(name="pipes", imports="From Viv Require Import Common Pipeline.", check="check_case", gen=gen_case,
-                   run=run_case, n_quick=200, n_thorough=2400, corpus=_load_corpus, finding_of=finding_of,
+                   run=run_case, n_quick=200, n_thorough=2400, corpus=_load_corpus,
                    doc="registrations, registry snapshots, call logs and values of probe pipelines in real contexts")]
 
 
